@@ -4,7 +4,9 @@ import (
 	"fmt"
 	"go/token"
 	"go/types"
+	"path/filepath"
 	"regexp"
+	"sort"
 	"strings"
 
 	"golang.org/x/tools/go/ssa"
@@ -273,7 +275,9 @@ func init() {
 			}
 			return Slice{A: s}
 		},
-		"strings.Clone": func(in *Interp, fn *ssa.Function, a []Value) Value { return a[0] },
+		"strings.Clone":               func(in *Interp, fn *ssa.Function, a []Value) Value { return a[0] },
+		"internal/stringslite.Clone": func(in *Interp, fn *ssa.Function, a []Value) Value { return a[0] },
+		"strconv.cloneString":        func(in *Interp, fn *ssa.Function, a []Value) Value { return a[0] },
 
 		// ---- bytealg (assembly) ----
 		"internal/bytealg.IndexByteString": func(in *Interp, fn *ssa.Function, a []Value) Value {
@@ -289,10 +293,10 @@ func init() {
 			return in.countByte(sliceBytes(a[0].(Slice)), a[1].(Int))
 		},
 		"internal/bytealg.IndexString": func(in *Interp, fn *ssa.Function, a []Value) Value {
-			return intRet(strings.Index(argStr(in, a[0]), argStr(in, a[1])))
+			return in.indexSym(strCells(a[0]), strCells(a[1]))
 		},
 		"internal/bytealg.Index": func(in *Interp, fn *ssa.Function, a []Value) Value {
-			return intRet(strings.Index(argStr(in, normStr(sliceBytes(a[0].(Slice)))), argStr(in, normStr(sliceBytes(a[1].(Slice))))))
+			return in.indexSym(sliceBytes(a[0].(Slice)), sliceBytes(a[1].(Slice)))
 		},
 		"internal/bytealg.Equal": func(in *Interp, fn *ssa.Function, a []Value) Value {
 			return in.strEq(sliceBytes(a[0].(Slice)), sliceBytes(a[1].(Slice)))
@@ -310,16 +314,32 @@ func init() {
 			return intRet(1)
 		},
 		"internal/stringslite.Index": func(in *Interp, fn *ssa.Function, a []Value) Value {
-			return intRet(strings.Index(argStr(in, a[0]), argStr(in, a[1])))
+			return in.indexSym(strCells(a[0]), strCells(a[1]))
 		},
 		"strings.Index": func(in *Interp, fn *ssa.Function, a []Value) Value {
-			return intRet(strings.Index(argStr(in, a[0]), argStr(in, a[1])))
+			return in.indexSym(strCells(a[0]), strCells(a[1]))
 		},
 		"strings.Contains": func(in *Interp, fn *ssa.Function, a []Value) Value {
-			return mkBool(strings.Contains(argStr(in, a[0]), argStr(in, a[1])))
+			i := in.indexSym(strCells(a[0]), strCells(a[1])).(Int)
+			return mkBool(i.Signed() >= 0)
 		},
 		"strings.Count": func(in *Interp, fn *ssa.Function, a []Value) Value {
-			return intRet(strings.Count(argStr(in, a[0]), argStr(in, a[1])))
+			hay, needle := strCells(a[0]), strCells(a[1])
+			if len(needle) == 0 {
+				if s, ok := hay.Concrete(); ok {
+					return intRet(strings.Count(s, ""))
+				}
+				panic(unsupported("strings.Count with empty separator on symbolic string"))
+			}
+			n := 0
+			for {
+				i := in.indexSym(hay, needle).(Int).Signed()
+				if i < 0 {
+					return intRet(n)
+				}
+				n++
+				hay = hay[int(i)+len(needle):]
+			}
 		},
 
 		// ---- sort.Slice family: insertion sort calling the real less ----
@@ -343,6 +363,40 @@ func init() {
 		// ---- runtime / os ----
 		"runtime.Caller": func(in *Interp, fn *ssa.Function, a []Value) Value {
 			return Tuple{mkInt(64, 0), "symgo", intRet(0), mkBool(false)}
+		},
+		"os.ReadFile": func(in *Interp, fn *ssa.Function, a []Value) Value {
+			name := argStr(in, a[0])
+			if data, ok := in.vfs[name]; ok {
+				cp := make([]Value, len(data.A))
+				copy(cp, data.A)
+				return Tuple{Slice{A: cp}, Iface{}}
+			}
+			return Tuple{Slice{}, errorValue(in, "open "+name+": no such file")}
+		},
+		"path/filepath.Glob": func(in *Interp, fn *ssa.Function, a []Value) Value {
+			pat := argStr(in, a[0])
+			var names []string
+			for _, n := range in.vfsOrder {
+				if ok, _ := filepath.Match(pat, n); ok {
+					names = append(names, n)
+				}
+			}
+			sort.Strings(names)
+			out := make([]Value, len(names))
+			for i, n := range names {
+				out[i] = n
+			}
+			if len(out) == 0 {
+				return Tuple{Slice{}, Iface{}}
+			}
+			return Tuple{Slice{A: out}, Iface{}}
+		},
+		"path/filepath.Join": func(in *Interp, fn *ssa.Function, a []Value) Value {
+			var parts []string
+			for _, e := range a[0].(Slice).A {
+				parts = append(parts, argStr(in, e))
+			}
+			return filepath.Join(parts...)
 		},
 		"os.Getwd": func(in *Interp, fn *ssa.Function, a []Value) Value { return Tuple{"/", Iface{}} },
 		"path/filepath.Rel": func(in *Interp, fn *ssa.Function, a []Value) Value {
@@ -472,6 +526,23 @@ func sliceBytes(s Slice) SymStr {
 func (in *Interp) indexByte(cells SymStr, c Int) Value {
 	for i, b := range cells {
 		if in.truth(in.intCmp(token.EQL, 8, false, b, c)) {
+			return intRet(i)
+		}
+	}
+	return intRet(-1)
+}
+
+// indexSym is strings.Index for strings whose bytes may be symbolic (lengths
+// are concrete): the first position where the needle matches, by case split.
+func (in *Interp) indexSym(hay, needle SymStr) Value {
+	if h, ok := hay.Concrete(); ok {
+		if n, ok := needle.Concrete(); ok {
+			return intRet(strings.Index(h, n))
+		}
+	}
+	m := len(needle)
+	for i := 0; i+m <= len(hay); i++ {
+		if in.truth(in.strEq(hay[i:i+m], needle)) {
 			return intRet(i)
 		}
 	}
